@@ -225,6 +225,21 @@ def loop_checks(chk, prog, fn, reader, only_tail=False):
         chk.ob("R-WIRE", FN, True, "the dispatch compares the block id's own three name bytes", w, key="name-source")
     if name is not None:
         okn = name[0] == "call" and name[2] and name[2][0][0] == "call" and name[2][0][1].endswith("from_utf8_lossy") and name[2][0][2] == (fld(okv(bid), "data_name"),)
+        if not okn:
+            # the id's three name bytes as text, by whichever route: strict UTF-8 when it succeeds, lossy otherwise (both are
+            # the bytes themselves for the ASCII names compared against)
+            dn_t = fld(okv(bid), "data_name")
+
+            def as_text(x):
+                while x[0] == "call" and len(x[2]) == 1 and x[1].rsplit("::", 1)[-1] in ("to_string", "to_owned", "into_owned", "as_str", "deref", "as_ref", "from", "into"):
+                    x = x[2][0]
+                if x[0] == "call" and x[1].endswith("from_utf8_lossy") and x[2] == (dn_t,):
+                    return True
+                if x[0] == "vfld" and x[2] == "Ok" and x[1][0] == "call" and x[1][1].endswith("from_utf8") and x[1][2] == (dn_t,):
+                    return True
+                return False
+            lv = [x for x in sym._leaves(name, []) if x != ("unreachable",)]
+            okn = bool(lv) and all(isinstance(x, tuple) and as_text(x) for x in lv)
         chk.ob("R-WIRE", FN, okn, "the dispatch compares the block id's own three name bytes", w, key="name-source")
     for lit, (field, ty) in sorted(DISPATCH.items()):
         g = found.get(lit)
